@@ -36,6 +36,10 @@ def run(ctx, rules):
         sc = check.Ctx('CTRL', 'quick', 0)
         c02.f_loop(sc, prog, [keys[K + '::spin']])
         expect('F-LOOP', sc, 'spin')
+    if 'F-RECURSION' in rules:
+        sc = check.Ctx('CTRL', 'quick', 0)
+        c02.f_recursion(sc, prog, krates=(K,))
+        expect('F-RECURSION', sc, 'recurse_on_tags')
     if 'F-FLOAT' in rules:
         from . import c12
         sc = check.Ctx('CTRL', 'quick', 0)
